@@ -468,6 +468,21 @@ static void do_realloc(State& S) {
   if (is_n) { split_count(S, nn, &cnt, &sz); if (grow_only && cnt * sz <= b->n) { cnt = 1; sz = nn; } nn = cnt * sz; }
   int hi = S.cur_default; mi_heap_t* h = nullptr;
   if (heapv) { hi = pick_heap(S); h = S.heaps[hi].h; }
+  // now and then a re-allocation that must fail: the call has to return NULL and leave the original block untouched and valid
+  // (mi_reallocf: released); the failure is provoked by the request itself, so it is available on every build and heap state
+  bool must_fail = (!S.cfg.allow_null && chance(S, (pr == "realloc" ? 7u : 3u), 100));
+  if (must_fail) {
+    if (ep == EP_new_realloc) ep = EP_realloc;            // the throwing forms abort() in a C build of mimalloc when they fail
+    if (ep == EP_new_reallocn) ep = EP_reallocn;
+    unsigned mode = (unsigned)below(S, 3);
+    if (aligned && mode == 1) { static const size_t bad[] = { 24, 48, 100, 4097, 65537, ((size_t)1 << 20) * 3 }; a = bad[below(S, 6)]; same_ao = false; if (o >= a) o = 8; if (nn <= b->u) nn = b->u * 2 + 64; /* (a request that still fits is served in place whatever the alignment) */ }
+    else if (aligned && mode == 2 && (ep == EP_realloc_aligned_at || ep == EP_rezalloc_aligned_at || ep == EP_recalloc_aligned_at || ep == EP_heap_realloc_aligned_at || ep == EP_heap_rezalloc_aligned_at || ep == EP_heap_recalloc_aligned_at))
+      { a = (size_t)1 << 25; o = 8 * (1 + (size_t)below(S, 100)); same_ao = false; if (nn <= b->u) nn = b->u * 2 + 64; }
+    else if (is_n) { sz = 8 + (size_t)below(S, 5000); cnt = SIZE_MAX / sz + 1 + (size_t)below(S, 1000); nn = SIZE_MAX; }
+    else nn = (size_t)PTRDIFF_MAX + 1 + (size_t)below(S, 1u << 20);
+    if (is_n && nn != SIZE_MAX) { cnt = 1; sz = nn; }      // (count x size forms: the enlarged size of the alignment modes)
+    S.n_realloc_mustfail++;
+  }
 
   // the old block: verify, snapshot, remove from the model (it is live until the call)
   S.sm.verify(b, "before realloc");
@@ -475,7 +490,7 @@ static void do_realloc(State& S) {
   uint8_t* p = b->p;
   hmix(S, 0xA0000000ull + (uint64_t)ep * 7919 + nn); hmix(S, old.id);
   S.sm.remove(b); b = nullptr;
-  size_t cons_before = 0; bool do_cons = (!S.cfg.threads && S.foreign_live == 0 && chance(S, 1, 16));
+  size_t cons_before = 0; bool do_cons = (!S.cfg.threads && S.foreign_live == 0 && (must_fail || chance(S, 1, 16)));
   if (do_cons) cons_before = conservation_count(S);
   void* q = nullptr;
   vf_cur_what = ep_names[ep];
@@ -512,15 +527,23 @@ static void do_realloc(State& S) {
   }
   S.n_realloc++; S.ep_count[ep]++;
   TRACE(S, "%s %p(id=%llu n=%zu u=%zu) -> n=%zu a=%zu o=%zu heap=%d : %p", ep_names[ep], (void*)p, (unsigned long long)old.id, old.n, old.u, nn, a, o, hi, q);
+  if (must_fail && q != nullptr) vf_trip("malformed-accepted", "C06", "%s(%p, n=%zu [count %zu x %zu], align=%zu, offset=%zu) must fail but returned %p", ep_names[ep], (void*)p, nn, cnt, sz, a, o, q);
   if (q == nullptr) {
     S.n_realloc_null++;
-    bool documented_null = (a > ALIGN_MAX_OFFSETTABLE && o != 0) || (hi >= 0 && S.heaps[hi].arena >= 0) || (old.heap >= 0 && S.heaps[old.heap].arena >= 0 && !heapv);
+    bool documented_null = must_fail || (a > ALIGN_MAX_OFFSETTABLE && o != 0) || (hi >= 0 && S.heaps[hi].arena >= 0) || (old.heap >= 0 && S.heaps[old.heap].arena >= 0 && !heapv);
     if (!S.cfg.allow_null && !documented_null) {
       vf_os_counts_t c; vf_os_get_counts(&c);
       uint64_t refused = 0; for (int i = 0; i < VF_OS__NCLASS; i++) refused += c.failed_real[i] + c.injected[i];
       if (refused == 0 && nn <= (1u << 30)) vf_trip("wellformed-refused", "C06,C05", "%s(%p, n=%zu, align=%zu, offset=%zu) returned NULL although the OS refused nothing", ep_names[ep], (void*)p, nn, a, o);
     }
     vf_err_reset();
+    if (do_cons) {
+      const bool f = (ep == EP_reallocf || ep == EP_heap_reallocf);
+      size_t after = conservation_count(S);
+      S.n_conserv++;
+      if (after + (f ? 1 : 0) != cons_before)
+        vf_trip("realloc-conservation", "C05", "%s failed (returned NULL): number of allocated blocks in the heaps went from %zu to %zu; the original block must %s", ep_names[ep], cons_before, after, f ? "have been released (reallocf)" : "still be allocated");
+    }
     if (ep == EP_reallocf || ep == EP_heap_reallocf) return;       // old block was freed by contract
     // failure: the original block must be untouched and still valid
     vf::Blk* r = S.sm.add(p, old.n, old.u, old.heap, old.align, old.off, old.zt, old.ep, old.id);   // keep the old pattern identity
@@ -839,6 +862,14 @@ void walk_compare(State& S, const char* refutes) {
   }
   if (S.cfg.abandon_ok) {
     // every live block that no heap reported must be reported by the walk over abandoned segments, and nothing else
+    {
+      // a visitor that returns false stops the abandoned walk too (and must not hide anything from the next walk)
+      WalkCtx w0; w0.stop_after = 1 + (long)below(S, 40);
+      vf_cur_what = "abandoned_visit_blocks (stopped)";
+      bool r0 = mi_abandoned_visit_blocks(mi_subproc_main(), -1, true, &walk_visitor, &w0);
+      if (w0.calls_after_stop != 0 || (w0.calls == w0.stop_after && r0))
+        vf_trip("walk-not-stopped", refutes, "abandoned walk: visitor returned false at call %ld but the walk returned %d after %ld further calls", w0.stop_after, (int)r0, w0.calls_after_stop);
+    }
     WalkCtx w;
     vf_cur_what = "abandoned_visit_blocks";
     mi_abandoned_visit_blocks(mi_subproc_main(), -1, true, &walk_visitor, &w);
@@ -960,6 +991,43 @@ static void next_phase(State& S) {
   S.victim_class = 0;
 }
 
+// C12: structured hole patterns inside the pages of one size class, then a walk (random frees alone almost never leave a run of 64
+// consecutive live blocks aligned to a bitmap word, a page with a single hole, a single live block, ...)
+static void do_walk_pattern(State& S) {
+  static const size_t classes[] = { 8, 16, 24, 32, 48, 64, 80, 112, 128, 192, 256, 320, 512, 1000, 1024, 2048, 3000, 4096, 8192, 10000, 16384, 40000 };
+  size_t n = classes[below(S, sizeof(classes) / sizeof(classes[0]))];
+  size_t bs = mi_good_size(n);
+  size_t per_page = (bs <= SMALL_OBJ_MAX ? 64 * KiB : 512 * KiB) / bs; if (per_page == 0) per_page = 1;
+  size_t count = per_page * (1 + (size_t)below(S, 3)) + (size_t)below(S, per_page + 1);
+  if (count > 9000) count = 9000;
+  if (S.sm.live.size() + count > S.cfg.max_live_blocks) return;
+  int hi = (chance(S, 1, 3) ? pick_heap(S) : S.cur_default);
+  std::vector<vf::Blk*> bs_list;
+  S.force_heap = hi;
+  for (size_t i = 0; i < count; i++) { vf::Blk* b = do_alloc(S, (hi == S.cur_default ? EP_malloc : EP_heap_malloc), n); if (b) bs_list.push_back(b); }
+  S.force_heap = -1;
+  std::sort(bs_list.begin(), bs_list.end(), [](vf::Blk* x, vf::Blk* y) { return x->p < y->p; });
+  unsigned pat = (unsigned)below(S, 8);
+  size_t m = bs_list.size();
+  std::vector<char> kill(m, 0);
+  switch (pat) {
+    case 0: { size_t k = 2 + (size_t)below(S, 8); for (size_t i = 0; i < m; i += k) kill[i] = 1; break; }                  // every k-th freed
+    case 1: { size_t k = 2 + (size_t)below(S, 8); for (size_t i = 0; i < m; i++) if (i % k != 0) kill[i] = 1; break; }      // only every k-th stays
+    case 2: { size_t h = 1 + (size_t)below(S, 3); for (size_t i = 0; i < h && m > 0; i++) kill[below(S, m)] = 1; break; } // one to three holes
+    case 3: { size_t keep = (m ? (size_t)below(S, m) : 0); for (size_t i = 0; i < m; i++) if (i != keep) kill[i] = 1; break; } // a single live block
+    case 4: { bool first = chance(S, 1, 2); for (size_t i = 0; i < m; i++) if ((i < m / 2) == first) kill[i] = 1; break; }  // one half
+    case 5: { size_t st = (m ? (size_t)below(S, m) : 0), len = 1 + (size_t)below(S, m + 1); for (size_t i = st; i < m && i < st + len; i++) kill[i] = 1; break; } // one contiguous hole
+    case 6: { for (size_t g = 0; g * 64 < m; g++) if (g % 2 == 1 || chance(S, 1, 4)) { size_t i = g * 64 + (size_t)below(S, 64); if (i < m) kill[i] = 1; } break; } // whole 64-groups stay live
+    default: { for (size_t g = 0; g * 64 < m; g++) { if (chance(S, 1, 2)) continue; for (size_t i = g * 64; i < m && i < g * 64 + 64; i++) if (i % 64 != 63 || chance(S, 1, 2)) kill[i] = 1; } break; } // empty groups with the last slot live
+  }
+  for (size_t i = 0; i < m; i++) if (kill[i]) do_free(S, bs_list[i]);
+  S.n_walk_patterns++;
+  walk_compare(S, "C12");
+  check_conservation(S, "after a hole pattern", "C12");
+  // usually give the rest back so that the history stays small (sometimes it stays and mixes with the ordinary operations)
+  if (chance(S, 3, 4)) { for (size_t i = 0; i < m; i++) if (!kill[i]) do_free(S, bs_list[i]); if (chance(S, 1, 3)) walk_compare(S, "C12"); }
+}
+
 static Weights g_w;
 void history_begin(State& S) {
   if (S.cfg.purge_cb) vf_os_set_purge_cb(&purge_cb);
@@ -1002,6 +1070,7 @@ void history_step(State& S) {
   else if ((r -= w.collect) < w.query) do_query(S);
   else { if (chance(S, 1, 2)) do_remote_free_batch(S); else do_thread_alloc_exit(S); }
 
+  if (walkprof && (S.op_index % 160) == 80) do_walk_pattern(S);
   if (S.cfg.trace >= 2 && S.foreign_live == 0) check_conservation(S, "paranoid", "C12");
   if ((S.op_index & 255) == 255) check_conservation(S, "periodic", walkprof ? "C12" : "C12,C05,C10");
   if ((S.op_index & 511) == 511) { vf_cur_what = "verify_all"; S.sm.verify_all("periodic verification"); }
@@ -1036,14 +1105,14 @@ void result_body(FILE* f) {
   State& S = *G;
   fprintf(f, "\"profile\":\"%s\",\"variant\":\"%s\",\"seed\":%llu,\"ops\":%llu,\"ops_done\":%llu,\"hash\":\"%016llx\",", S.cfg.profile.c_str(), S.cfg.variant.c_str(),
           (unsigned long long)S.cfg.seed, (unsigned long long)S.cfg.ops, (unsigned long long)S.op_index, (unsigned long long)S.hash);
-  fprintf(f, "\"allocs\":%llu,\"alloc_null\":%llu,\"frees\":%llu,\"reallocs\":%llu,\"realloc_inplace\":%llu,\"realloc_moved\":%llu,\"realloc_null\":%llu,\"expand_ok\":%llu,\"expand_null\":%llu,",
+  fprintf(f, "\"allocs\":%llu,\"alloc_null\":%llu,\"frees\":%llu,\"reallocs\":%llu,\"realloc_inplace\":%llu,\"realloc_moved\":%llu,\"realloc_null\":%llu,\"realloc_mustfail\":%llu,\"expand_ok\":%llu,\"expand_null\":%llu,",
           (unsigned long long)S.n_alloc, (unsigned long long)S.n_alloc_null, (unsigned long long)S.n_free, (unsigned long long)S.n_realloc, (unsigned long long)S.n_realloc_inplace,
-          (unsigned long long)S.n_realloc_moved, (unsigned long long)S.n_realloc_null, (unsigned long long)S.n_expand_ok, (unsigned long long)S.n_expand_null);
+          (unsigned long long)S.n_realloc_moved, (unsigned long long)S.n_realloc_null, (unsigned long long)S.n_realloc_mustfail, (unsigned long long)S.n_expand_ok, (unsigned long long)S.n_expand_null);
   fprintf(f, "\"zero_checked\":%llu,\"zero_bytes\":%llu,\"zero_reused_dirty\":%llu,\"zgrow_inplace\":%llu,\"zgrow_moved\":%llu,\"aligned\":%llu,\"interior\":%llu,",
           (unsigned long long)S.n_zero_checked, (unsigned long long)S.n_zero_bytes, (unsigned long long)S.n_zero_reused_dirty, (unsigned long long)S.n_zgrow_inplace, (unsigned long long)S.n_zgrow_moved,
           (unsigned long long)S.n_aligned, (unsigned long long)S.n_interior);
-  fprintf(f, "\"walks\":%llu,\"walk_blocks\":%llu,\"conservation_checks\":%llu,\"queries\":%llu,\"heap_new\":%llu,\"heap_delete\":%llu,\"heap_destroy\":%llu,\"drains\":%llu,",
-          (unsigned long long)S.n_walks, (unsigned long long)S.n_walk_blocks, (unsigned long long)S.n_conserv, (unsigned long long)S.n_queries, (unsigned long long)S.n_heap_new,
+  fprintf(f, "\"walk_patterns\":%llu,\"walks\":%llu,\"walk_blocks\":%llu,\"conservation_checks\":%llu,\"queries\":%llu,\"heap_new\":%llu,\"heap_delete\":%llu,\"heap_destroy\":%llu,\"drains\":%llu,",
+          (unsigned long long)S.n_walk_patterns, (unsigned long long)S.n_walks, (unsigned long long)S.n_walk_blocks, (unsigned long long)S.n_conserv, (unsigned long long)S.n_queries, (unsigned long long)S.n_heap_new,
           (unsigned long long)S.n_heap_delete, (unsigned long long)S.n_heap_destroy, (unsigned long long)S.n_drain);
   fprintf(f, "\"remote_batches\":%llu,\"thread_exits\":%llu,\"foreign_blocks\":%llu,\"purge_ranges_checked\":%llu,\"clock_ms\":%llu,\"max_live_blocks\":%llu,\"max_live_bytes\":%llu,\"verified_blocks\":%llu,\"verified_bytes\":%llu,",
           (unsigned long long)S.n_remote_batches, (unsigned long long)S.n_thread_exits, (unsigned long long)S.n_foreign, (unsigned long long)S.n_purge_ranges, (unsigned long long)S.n_clock_ms,
